@@ -741,6 +741,8 @@ def analyse_func(name, entry, insns, summaries, thresholds, vec_entry_dirty=Fals
                         pv_.pop(dk, None)
                 elif mn in PV_KEEP and (len(ops) == 1 or srcs[0] is None and parse_mem(ops[1]) is None):
                     pass
+                elif mn in ('or', 'and') and len(ops) == 2 and ops[0] == ops[1]:
+                    pass    # `or r, r` only sets the flags
                 elif mn in PV_SELF2 and len(ops) >= 2:
                     # two-operand SSE shuffles: dst = f(src) (pshuflw x, x, imm) or dst = f(dst, mask)
                     if len(ops) == 3 and srcs[0] is not None:
